@@ -70,7 +70,14 @@ QueryCombined == LET e == CombF(1, lastCheck, isTrue) IN
             /\ obs' = [k |-> "query", c |-> Combined, r |-> e.r]
             /\ UNCHANGED <<now, val, lastUpdate, lastChange, pLast>>
 
+(* Message::prepareMaster of the (active read) referenced message, e.g. an unanswered poll: storeLastData(master) - *)
+(* a request without master data stamps neither the update nor the change time (the change time is copied from     *)
+(* the update time, which only a stored answer sets); no answer is stored                                          *)
+Prepare == /\ obs' = [k |-> "prepare"]
+           /\ UNCHANGED <<now, val, lastUpdate, lastChange, lastCheck, isTrue, pLast>>
+
 SNext == \/ \E v \in Vals : Store(v)
+         \/ Prepare
          \/ \E d \in {0, 1, 2} : Tick(d)
          \/ \E c \in 1..NC : Query(c)
          \/ QueryCombined
